@@ -16,6 +16,12 @@ Theorem C06_failed_allocate_noop : forall ns ex s r s' res, Inv s -> NoEmpty s -
 Proof. exact (fun ns ex => allocate_fail_noop ns ex src_fixes). Qed.
 Print Assumptions C06_failed_allocate_noop.
 
+(* the same for a failed Realloc (unknown id, invalid request, no new nodes, unresolvable overcommit) *)
+Theorem C06_failed_realloc_noop : forall ns ex s id nodes types s' res, Inv s -> NoEmpty s ->
+  realloc ns ex src_fixes s id nodes types = (s', res) -> rs_kind res <> KOk -> s' = s.
+Proof. exact main_failed_realloc_noop. Qed.
+Print Assumptions C06_failed_realloc_noop.
+
 (* requesting an offer never changes allocator state, whether it succeeds or fails *)
 Theorem C06_offer_pure : forall ns ex s r s' res o, Inv s -> NoEmpty s ->
   get_offer ns ex src_fixes s r = (s', res, o) -> s' = s.
